@@ -792,4 +792,98 @@ theorem iterRunP_ok {n : Nat} {deps : List Dep} {chunks : List (List Chunk)} {st
               rw [hdeps] at t3
               exact ⟨t1, t3⟩
 
+/-! ### per-dependency reading of `handedOver` -/
+
+theorem handedOver_index : ∀ {calls : List Call} {tail target : List (List Row)},
+    handedOver calls tail = target → ∀ (i : Nat) (all : List Row), target[i]? = some all →
+      ∃ left, tail[i]? = some left ∧ calls.flatMap (fun c => c.rowsOf i) ++ left = all
+  | [], tail, target, h, i, all, hi => by
+    simp only [handedOver, List.foldr_nil] at h
+    subst h
+    exact ⟨all, hi, by simp⟩
+  | c :: cs, tail, target, h, i, all, hi => by
+    have h' : List.zipWith (· ++ ·) c.rows (handedOver cs tail) = target := h
+    subst h'
+    obtain ⟨x, y, hx, hy, hxy⟩ := List.getElem?_zipWith_eq_some.mp hi
+    obtain ⟨left, hl, e⟩ := handedOver_index (calls := cs) rfl i y hy
+    refine ⟨left, hl, ?_⟩
+    have : c.rowsOf i = x := by simp [Call.rowsOf, hx]
+    simp only [List.flatMap_cons, this, List.append_assoc, e]
+    exact hxy
+
+/-! ### more passes never change a successful outcome -/
+
+theorem retrim_mono : ∀ {n : Nat} {t : Int} {z z' : Zip (Chunk × DepState)} (k : Nat),
+    retrim n t z = .ok z' → retrim (n + k) t z = .ok z'
+  | 0, _, _, _, _, h => by unfold retrim at h; cases h
+  | n + 1, t, z, z', k, h => by
+    have e : n + 1 + k = (n + k) + 1 := by omega
+    rw [e]
+    unfold retrim at h ⊢
+    dsimp only at h ⊢
+    split at h
+    · rename_i he; rw [if_pos he]; exact h
+    · rename_i he
+      rw [if_neg he]
+      split at h
+      · cases h
+      · rename_i z1 hz1
+        exact retrim_mono k h
+
+theorem iterBody_mono {n : Nat} {strict : Bool} {z : Zip DepState} {r : Call × Zip DepState} (k : Nat)
+    (h : iterBody n strict z = .ok r) : iterBody (n + k) strict z = .ok r := by
+  unfold iterBody at h ⊢
+  dsimp only at h ⊢
+  split at h
+  · cases h
+  · rename_i z0 hz0
+    split at h
+    · cases h
+    · rename_i zi hzi
+      rw [retrim_mono k hzi]
+      exact h
+
+theorem iterLoop_mono {n : Nat} {strict : Bool} (k : Nat) :
+    ∀ {rem : List Chunk} {pre : List DepState} {d : Dep} {buf : Chunk} {post : List DepState}
+      {r : List Call × List DepState},
+      iterLoop n strict rem pre d buf post = .ok r → iterLoop (n + k) strict rem pre d buf post = .ok r
+  | [], _, _, _, _, _, h => by unfold iterLoop at h ⊢; exact h
+  | c :: rest, pre, d, buf, post, r, h => by
+    unfold iterLoop at h ⊢
+    split at h
+    · cases h
+    · rename_i buf1 hb
+      split at h
+      · cases h
+      · rename_i call z' hbody
+        rw [iterBody_mono k hbody]
+        dsimp only
+        split at h
+        · cases h
+        · rename_i calls fin hrec
+          rw [iterLoop_mono k hrec]
+          exact h
+
+theorem iterRunP_mono {n : Nat} {deps : List Dep} {chunks : List (List Chunk)} {strict : Bool}
+    {r : Result} (k : Nat) (h : iterRunP n deps chunks strict = .ok r) :
+    iterRunP (n + k) deps chunks strict = .ok r := by
+  unfold iterRunP at h ⊢
+  split at h
+  · cases h
+  · rename_i sts hinit
+    split at h
+    · cases h
+    · rename_i z hz
+      unfold iterFrom at h ⊢
+      split at h
+      · cases h
+      · rename_i call z' hbody
+        rw [iterBody_mono k hbody]
+        dsimp only
+        split at h
+        · cases h
+        · rename_i calls fin hloop
+          rw [iterLoop_mono k hloop]
+          exact h
+
 end Strax.Align
